@@ -2181,4 +2181,117 @@ theorem meshBlock_spec (m : CMode) (af bf below : Bool) (hOld hNew : Rat) (hpos 
 example : blocksBetween [⟨0, 25, 25, (1 : Nat)⟩, ⟨25, 50, 25, 2⟩, ⟨50, 100, 50, 3⟩] 0 30 = some [(1, 25), (2, 5)] := by
   decide +kernel
 
+
+/-! ### a mass-conserving height change does not depend on the component volume caches -/
+
+private theorem clearCache_idem (cs : List VComp) : clearCache (clearCache cs) = clearCache cs := by
+  simp [clearCache, List.map_map, Function.comp_def]
+
+/-- **the result of `setHeight(h, conserveMass=True, ...)` is the same from every cache state**: two blocks
+that differ only in which component volumes are cached (and in what stale values those caches hold) end
+with the same densities — because the block's cache is cleared before the densities are adjusted. -/
+theorem setHeightOne_cache_independent (hOld hNew : Rat) (cs cs' : List VComp)
+    (h : clearCache cs = clearCache cs') : setHeightOne hOld hNew cs = setHeightOne hOld hNew cs' := by
+  unfold setHeightOne; rw [h]
+
+theorem setHeightOne_of_cleared (hOld hNew : Rat) (cs : List VComp) :
+    setHeightOne hOld hNew (clearCache cs) = setHeightOne hOld hNew cs := by
+  unfold setHeightOne; rw [clearCache_idem]
+
+private theorem vol_clear (h : Rat) (cs : List VComp) :
+    (clearCache cs).map (vol h) = cs.map (fun c => c.area * h) := by
+  simp [clearCache, vol, List.map_map, Function.comp_def]
+
+private theorem sum_map_mul_right (l : List VComp) (f : VComp → Rat) (k : Rat) :
+    (l.map (fun c => f c * k)).sum = (l.map f).sum * k := by
+  induction l with
+  | nil => simp
+  | cons x t ih => simp only [List.map_cons, List.sum_cons, ih]; ring
+
+private theorem sum_active (l : List VComp) (v h : Rat) :
+    (l.map (fun c => (if c.nd.isSome then ({ c with nd := some v } : VComp) else c).nd.getD 0 * c.area * h)).sum
+      = v * ((l.filter (fun c => c.nd.isSome)).map (fun c => c.area)).sum * h
+        + ((l.filter (fun c => !c.nd.isSome)).map (fun c => c.nd.getD 0 * c.area * h)).sum := by
+  induction l with
+  | nil => simp
+  | cons x t ih =>
+    by_cases hx : x.nd.isSome = true
+    · simp only [List.map_cons, List.sum_cons, ih, hx, if_true, List.filter_cons_of_pos, Bool.not_true,
+        Option.getD_some]
+      simp
+      ring
+    · have hx' : x.nd.isSome = false := by simpa using hx
+      simp only [List.map_cons, List.sum_cons, ih, hx']
+      simp
+      ring
+
+private theorem inactive_zero (l : List VComp) (h : Rat) :
+    ((l.filter (fun c => !c.nd.isSome)).map (fun c => c.nd.getD 0 * c.area * h)).sum = 0 := by
+  induction l with
+  | nil => simp
+  | cons x t ih =>
+    cases hx : x.nd with
+    | none => simp [List.filter_cons, hx, ih]
+    | some v => simp [List.filter_cons, hx, ih]
+
+private theorem atoms_split (l : List VComp) (h : Rat) :
+    atomsOf h l = ((l.map (fun c => c.nd.getD 0 * c.area)).sum) * h := by
+  unfold atomsOf
+  exact sum_map_mul_right l (fun c => c.nd.getD 0 * c.area) h
+
+/-- **the atoms of a listed nuclide are conserved by the height change, summed over the components that share
+it** (up to the code's `1e-50` trace term, stated exactly): Σ N'_c·A_c·hNew = Σ N_c·A_c·hOld + TRACE·ΣA·hNew —
+from ANY cache state. -/
+theorem setHeightOne_atoms (hOld hNew : Rat) (cs : List VComp) (hn : hNew ≠ 0)
+    (hA : (cs.map (fun c => c.area)).sum ≠ 0)
+    (hAct : ((cs.filter (fun c => c.nd.isSome)).map (fun c => c.area)).sum ≠ 0)
+    (hd : blockND hNew (clearCache cs) ≠ 0) :
+    atomsOf hNew (setHeightOne hOld hNew cs) = atomsOf hOld cs + TRACE * (cs.map (fun c => c.area)).sum * hNew := by
+  have hclr_area : ∀ l : List VComp, (clearCache l).map (fun c => c.area) = l.map (fun c => c.area) := by
+    intro l; simp [clearCache, List.map_map, Function.comp_def]
+  have hfilt : (clearCache cs).filter (fun c => c.nd.isSome) = clearCache (cs.filter (fun c => c.nd.isSome)) := by
+    simp [clearCache, List.filter_map, Function.comp_def]
+  have htot : ∀ l : List VComp, totalVol hNew (clearCache l) = (l.map (fun c => c.area)).sum * hNew := by
+    intro l
+    unfold totalVol
+    rw [vol_clear]
+    exact sum_map_mul_right l (fun c => c.area) hNew
+  have hnum : ((clearCache cs).map (fun c => c.nd.getD 0 * vol hNew c)).sum
+      = (cs.map (fun c => c.nd.getD 0 * c.area)).sum * hNew := by
+    have : (clearCache cs).map (fun c => c.nd.getD 0 * vol hNew c) = cs.map (fun c => c.nd.getD 0 * c.area * hNew) := by
+      simp [clearCache, vol, List.map_map, Function.comp_def, mul_assoc]
+    rw [this]
+    exact sum_map_mul_right cs (fun c => c.nd.getD 0 * c.area) hNew
+  have hbd : blockND hNew (clearCache cs)
+      = (cs.map (fun c => c.nd.getD 0 * c.area)).sum / (cs.map (fun c => c.area)).sum := by
+    unfold blockND
+    rw [hnum, htot]
+    field_simp
+  unfold setHeightOne adjustOne
+  simp only [hd, if_false]
+  unfold setBlockND
+  simp only [hfilt, htot]
+  unfold atomsOf
+  have hmap : ∀ v : Rat, ((clearCache cs).map (fun c => if c.nd.isSome then ({ c with nd := some v } : VComp) else c)).map
+      (fun c => c.nd.getD 0 * c.area * hNew)
+      = cs.map (fun c => (if c.nd.isSome then ({ c with nd := some v } : VComp) else c).nd.getD 0 * c.area * hNew) := by
+    intro v
+    simp only [clearCache, List.map_map, Function.comp_def]
+    apply List.map_congr_left
+    intro c _
+    cases hc : c.nd <;> simp [hc]
+  rw [hmap, sum_active, inactive_zero, add_zero, hbd]
+  have e := atoms_split cs hOld
+  unfold atomsOf at e
+  rw [e]
+  field_simp
+  ring
+
+/-- why the order of statements matters (the excluded alternative): adjusting the densities while ONE component
+still carries its old cached volume does not conserve the atoms of a nuclide shared by two components -/
+example :
+    let cs : List VComp := [⟨1, some 4, some 10⟩, ⟨3, some 8, none⟩]      -- heights 10 -> 20, first volume stale
+    atomsOf 20 (adjustOne 20 (10 / 20) cs) ≠ atomsOf 10 cs + TRACE * 4 * 20 ∧
+    atomsOf 20 (setHeightOne 10 20 cs) = atomsOf 10 cs + TRACE * 4 * 20 := by decide +kernel
+
 end ArmiVerif.Mesh
